@@ -74,6 +74,9 @@ Definition sv_term (d : nat) (svl : list Q) : expr :=
 Definition ins_term (n : Z) : expr := ENeg (ELn (EZ (Z.max 1 n))).
 
 (* local data of one sample: squared radius (grid units), squared singular values (real units), inside-count *)
+(* l_sv2: the singular values the code looks at -- of the min(k+1, d) that the SVD of a centred (k+1)-point neighbourhood
+   returns only the first k (its rank is at most k; /repo 2752a61, finding F6), of which [sv_term] reads the first d:
+   `for l in range(min(d, len(sing_Yi), k))` *)
 Record loc := mkloc { l_rho2 : Z; l_sv2 : list Q; l_ins : Z }.
 Definition corr (d : nat) (l : loc) : expr := EAdd (ins_term (l_ins l)) (sv_term d (l_sv2 l)).
 
@@ -101,7 +104,7 @@ Variable sv2 : Z -> point -> list point -> list Q.
 Variable ins : Z -> point -> list point -> Z.
 
 Definition loc_of (D : Z) (k : nat) (pts : list point) (p : point) : loc :=
-  mkloc (rho2 k pts p) (sv2 D p (nbrs k pts p)) (ins D p (nbrs k pts p)).
+  mkloc (rho2 k pts p) (firstn k (sv2 D p (nbrs k pts p))) (ins D p (nbrs k pts p)).
 Definition geo_entropy_expr (D : Z) (d k : nat) (pts : list point) : expr :=
   geo_expr_of D d (map (loc_of D k pts) pts).
 
@@ -135,7 +138,7 @@ Definition geo1_entropy_expr (D : Z) (k : nat) (pts : list point) : expr := geo_
 (* the estimator on recorded SVD data: one list of squared singular values and one inside-count per sample *)
 Fixpoint locs_of (k : nat) (pts : list point) (ps : list point) (svl : list (list Q)) (insl : list Z) : list loc :=
   match ps, svl, insl with
-  | p :: ps', sv :: svl', n :: insl' => mkloc (rho2 k pts p) sv n :: locs_of k pts ps' svl' insl'
+  | p :: ps', sv :: svl', n :: insl' => mkloc (rho2 k pts p) (firstn k sv) n :: locs_of k pts ps' svl' insl'
   | _, _, _ => []
   end.
 Definition geo_case_expr (D : Z) (d k : nat) (pts : list point) (svl : list (list Q)) (insl : list Z) : expr :=
